@@ -76,40 +76,62 @@ def fieldOf (fs : List PField) (k : S) : Option String :=
 
 def hexDigit (n : Nat) : Nat := if n < 10 then 48 + n else 87 + n
 
-/-- JSON string body: `"` `\` and control characters escaped, everything else verbatim
-(accumulator-passing: documents hold sequences of several million letters) -/
+/-- `\uXXXX` (four lower-case hex digits) -/
+def u4 (c : Nat) : S :=
+  [92, 117, hexDigit (c / 4096 % 16), hexDigit (c / 256 % 16), hexDigit (c / 16 % 16), hexDigit (c % 16)]
+
+/-- one code point inside a JSON string, exactly as `encoding/json` (Go 1.23, HTML escaping on) writes it:
+`\"` `\\` `\b` `\f` `\n` `\r` `\t`, `\u00XX` for the other control characters, `\u003c` `\u003e` `\u0026` for
+`<` `>` `&`, `\u2028` `\u2029`, everything else verbatim -/
+def escOne (c : Nat) : S :=
+  if c == 34 then [92, 34]
+  else if c == 92 then [92, 92]
+  else if c == 8 then [92, 98]
+  else if c == 12 then [92, 102]
+  else if c == 10 then [92, 110]
+  else if c == 13 then [92, 114]
+  else if c == 9 then [92, 116]
+  else if c < 32 || c == 38 || c == 60 || c == 62 || c == 0x2028 || c == 0x2029 then u4 c
+  else [c]
+
+/-- JSON string body (accumulator-passing: documents hold sequences of several million letters) -/
 def escJsonAux : S → S → S
   | [], acc => acc.reverse
-  | c :: cs, acc =>
-    escJsonAux cs
-      (if c == 34 then 34 :: 92 :: acc
-       else if c == 92 then 92 :: 92 :: acc
-       else if c < 32 then hexDigit (c % 16) :: hexDigit (c / 16) :: 48 :: 48 :: 117 :: 92 :: acc
-       else c :: acc)
+  | c :: cs, acc => escJsonAux cs ((escOne c).reverse ++ acc)
 
 def escJson (s : S) : S := escJsonAux s []
 
 def quoteJson (s : S) : S := 34 :: (escJson s ++ [34])
 
-def intDigits (n : Int) : S := ofStr (toString n)
+/-- decimal digits of a natural number, most significant first (fuel `n + 1` is more than enough) -/
+def natDigitsAux : Nat → Nat → S → S
+  | 0, _, acc => acc
+  | f + 1, n, acc => if n < 10 then (48 + n) :: acc else natDigitsAux f (n / 10) ((48 + n % 10) :: acc)
+
+def natDigits (n : Nat) : S := natDigitsAux (n + 1) n []
+
+/-- a JSON integer as Go's `strconv` writes it: `-` for negatives, no leading zeros, no `+` -/
+def intDigits (n : Int) : S := if n < 0 then 45 :: natDigits n.natAbs else natDigits n.natAbs
 
 mutual
 def JVal.print : JVal → S
-  | .null => ofStr "null"
-  | .bool true => ofStr "true"
-  | .bool false => ofStr "false"
+  | .null => [110, 117, 108, 108]
+  | .bool true => [116, 114, 117, 101]
+  | .bool false => [102, 97, 108, 115, 101]
   | .num n => intDigits n
   | .str s => quoteJson s
-  | .arr xs => 91 :: (JVal.printList xs ++ [93])
-  | .obj kvs => 123 :: (JVal.printMembers kvs ++ [125])
-def JVal.printList : List JVal → S
-  | [] => []
-  | [x] => JVal.print x
-  | x :: y :: xs => JVal.print x ++ 44 :: JVal.printList (y :: xs)
-def JVal.printMembers : List (S × JVal) → S
-  | [] => []
-  | [(k, v)] => quoteJson k ++ 58 :: JVal.print v
-  | (k, v) :: m :: ms => quoteJson k ++ 58 :: (JVal.print v ++ 44 :: JVal.printMembers (m :: ms))
+  | .arr [] => [91, 93]
+  | .arr (x :: xs) => 91 :: (JVal.print x ++ JVal.printTail xs)
+  | .obj [] => [123, 125]
+  | .obj ((k, v) :: ms) => 123 :: (quoteJson k ++ 58 :: (JVal.print v ++ JVal.printMembersTail ms))
+/-- the remaining elements, each preceded by `,`, then `]` -/
+def JVal.printTail : List JVal → S
+  | [] => [93]
+  | x :: xs => 44 :: (JVal.print x ++ JVal.printTail xs)
+/-- the remaining members, each preceded by `,`, then `}` -/
+def JVal.printMembersTail : List (S × JVal) → S
+  | [] => [125]
+  | (k, v) :: ms => 44 :: (quoteJson k ++ 58 :: (JVal.print v ++ JVal.printMembersTail ms))
 end
 
 end PolyVerif
